@@ -450,3 +450,49 @@ def quoted_token_contract(ctx, clause):
                           "%s calls %s(%s): %s - the datatype is then decided from the content (a plain string with an '@', or with "
                           "'\"^^' inside, gets the wrong datatype)" % (g.short, f.short, norm(arg)[:30], why)))
     return obs, n
+
+
+# ------------------------------------------------------------------------- Turtle token table
+# (line, start index) -> token the scanner must cut there, or "raise" for text outside the reader's dialect.
+# The expected value is the text of the token (its position in the line is derived from it).
+TTL_TOKEN_ROWS = [
+    ('ex:s ex:p "x" .', 10, '"x"'),
+    ('ex:s ex:p "x"^^xsd:int .', 10, '"x"^^xsd:int'),
+    ('ex:s ex:p "x"^^<http://www.w3.org/2001/XMLSchema#int> ;', 10, '"x"^^<http://www.w3.org/2001/XMLSchema#int>'),
+    ('ex:s ex:p "x"@en .', 10, '"x"@en'),
+    ('ex:s ex:p "x"@en-GB , "y"@fr .', 10, '"x"@en-GB'),
+    ('ex:s ex:p "a \\\\"q\\\\" b" .', 10, '"a \\\\"q\\\\" b"'),
+    ('ex:s ex:p "x"', 10, '"x"'),
+    ('ex:s ex:p "x". ', 10, "raise"),
+    ('ex:s ex:p "x"; ex:q "y" .', 10, "raise"),
+    ('ex:s ex:p "x""y" .', 10, "raise"),
+    ('ex:s ex:p <http://e/o> .', 10, "<http://e/o>"),
+    ('ex:s ex:p ex:o .', 10, "ex:o"),
+    ('ex:s ex:p 5 .', 10, "5"),
+    ('ex:s ex:p ex:o .', 15, "."),
+]
+
+
+def ttl_token_table(ctx, clause):
+    """Decision table of BigTtlTriplesYielder._next_line_token over representative lines of the dialect (plain, typed and
+    language-tagged literals, escapes, glued punctuation, IRIs, prefixed names, numbers, closures)."""
+    from ..abseval import Raised, Fork
+    f = ctx.p.func(TTL + "_next_line_token")
+    obs = []
+    for line, start, want in TTL_TOKEN_ROWS:
+        line = line.replace("\\\\", "\\")
+        want = want.replace("\\\\", "\\")
+        ev = Evaluator(ctx, max_depth=10)
+        outs = ev.outcomes(f, {"a_line": line, "start_index": start}, {"self._prefixes": {"ex": "http://example.org/"}, "self._base": None})
+        if want == "raise":
+            ok = len(outs) == 1 and outs[0][0] == "raise"
+            exp = "raises (outside the dialect)"
+        else:
+            end = start + len(want)
+            exp = "token %r, next index %d or %d" % (want, end, end + 1)
+            ok = len(outs) == 1 and outs[0][0] == "return" and isinstance(outs[0][1], tuple) and len(outs[0][1]) == 2 \
+                and outs[0][1][0] == want and outs[0][1][1] in (end, end + 1)
+        obs.append(Ob(clause, "R-TABLE", "R-TABLE|ttl-token|%s@%d" % (line, start), f.loc(), ok,
+                      "line `%s` at %d -> %s" % (line, start, exp) if ok else
+                      "line `%s` at %d: expected %s, code gives %s" % (line, start, exp, outs)))
+    return obs
